@@ -351,8 +351,17 @@ def load_module(prop: str):
     return importlib.import_module(f'vf.props.{prop.lower()}')
 
 
+def out_root() -> str:
+    """Evidence and replay files of runs against /repo go to /verif; runs against any other tree (VERIF_REPO, used for
+    seeded changes and sweeps on scratch worktrees) write to scratch/ so that they never replace real evidence."""
+    repo = os.path.realpath(os.environ.get('VERIF_REPO', '/repo'))
+    if repo == os.path.realpath('/repo'):
+        return ROOT
+    return os.path.join(ROOT, 'scratch', os.path.basename(repo))
+
+
 def write_replay(prop: str, f: dict) -> str:
-    d = os.path.join(ROOT, 'replays', prop)
+    d = os.path.join(out_root(), 'replays', prop)
     os.makedirs(d, exist_ok=True)
     name = hashlib.sha1(f['signature'].encode()).hexdigest()[:12] + '.json'
     path = os.path.join(d, name)
@@ -384,8 +393,8 @@ def write_evidence(ctx: Ctx, mod, wall: float, violations: int):
     ev = {'property_id': ctx.prop, 'tier': ctx.tier, 'seed': ctx.seed, 'level': meta.get('level', 'exploration'),
           'coverage': coverage, 'assumptions': meta.get('assumptions', []), 'wall_s': round(wall, 2),
           'violations': violations}
-    os.makedirs(os.path.join(ROOT, 'evidence'), exist_ok=True)
-    with open(os.path.join(ROOT, 'evidence', f'{ctx.prop}.json'), 'w') as fh:
+    os.makedirs(os.path.join(out_root(), 'evidence'), exist_ok=True)
+    with open(os.path.join(out_root(), 'evidence', f'{ctx.prop}.json'), 'w') as fh:
         json.dump(ev, fh, indent=1, sort_keys=True, default=_json_default)
         fh.write('\n')
 
@@ -429,7 +438,7 @@ def main(argv) -> int:
         print('tier must be quick or thorough', file=sys.stderr)
         return 2
     ctx = Ctx(prop, tier, seed, known, t0=t0)
-    rdir = os.path.join(ROOT, 'replays', prop)
+    rdir = os.path.join(out_root(), 'replays', prop)
     if os.path.isdir(rdir):  # replay files belong to one run
         for fn in os.listdir(rdir):
             if fn.endswith('.json'):
